@@ -78,9 +78,28 @@ package main
 
 //@ func RedactMongoLog
 //@   safety C07
+//@   props C01 C04 C12
 //@   assigns GoMaps, Arr:Val, Mem:OMap, decUseNumber
 //@   allocs Arr:Int, Arr:Slice, Mem:Str, Arr:Str
+//@   local c := mkCfg(redactedString, redactNumbers, redactBooleans, shouldEncrypt && encryptionKey != nil, mkbytes(elems(encryptionKey), off(encryptionKey), len(encryptionKey)), redactedFieldsRegexp, emailRegex, redactNamespaces)
+//@   snapshot_after UnmarshalOrdered#1 H0 := comp("Mem:OMap")
+//@   loop 1 invariant no-prefix-so-far {C15}: !anyPrefix(nsStrOf(H0[attr]), selems(eagerRedactionPaths), off(eagerRedactionPaths), _idx) && om(attr) == omAfterIPs
+//@   snapshot_after (*orderedmap.OrderedMap).Get#3 omAfterIPs := om(mapOf(result0))
+//@   at_call redactCommand field-name-mode-iff-namespace-prefix {C15}: shouldEagerRedact == anyPrefix(nsStrOf(H0[attr]), selems(eagerRedactionPaths), off(eagerRedactionPaths), len(eagerRedactionPaths))
+//@   post_local E := H0[result0]
+//@   post_local hasAttr := omIdx(E, "attr") >= 0 && isMap(omVal(E, omIdx(E, "attr")))
+//@   post_local attrRef := mapOf(omVal(E, omIdx(E, "attr")))
+//@   post_local A := H0[attrRef]
+//@   post_local B := om(attrRef)
+//@   post_local gate := lineGate(E)
 //@   ensures object-or-error: (result0 == nil) == (result1 != nil)
+//@   ensures top-level-untouched {C04}: implies(result1 == nil, om(result0) == E)
+//@   ensures attr-changes-only-in-zones {C04,C03}: implies(result1 == nil && hasAttr, ChangedOnlyAt(gate, redactIPs, redactNamespaces, len(eagerRedactionPaths) > 0, A, B))
+//@   ensures command-slot {C01,C12}: implies(result1 == nil && hasAttr && gate, SlotOK(c, A, B, "command"))
+//@   ensures cmd-slot {C01,C12}: implies(result1 == nil && hasAttr && gate, SlotOK(c, A, B, "cmd"))
+//@   ensures originating-command-slot {C01,C12}: implies(result1 == nil && hasAttr && gate, SlotOK(c, A, B, "originatingCommand"))
+//@   ensures attr-ns-pseudonymised {C12}: implies(result1 == nil && hasAttr && redactNamespaces && omIdx(A, "ns") >= 0, NsHashed(redactedString, omVal(A, omIdx(A, "ns")), omVal(B, omIdx(A, "ns"))))
+//@   ensures remote-address-replaced {C01}: implies(result1 == nil && hasAttr && redactIPs && omIdx(A, "remote") >= 0 && isStr(omVal(A, omIdx(A, "remote"))), omVal(B, omIdx(A, "remote")) == VStr(C_IP))
 
 //@ func MarshalOrdered
 //@   safety C07
@@ -494,6 +513,10 @@ package main
 //@   loop 4 invariant key-path-frame: unchangedBelowExcept("Arr:Str", base(keyPath))
 //@   loop 5 invariant key-path-frame: unchangedBelowExcept("Arr:Str", base(keyPath))
 //@   loop 6 invariant key-path-frame: unchangedBelowExcept("Arr:Str", base(keyPath))
+//@   props C01 C03
+//@   local c := mkCfg(redactedString, redactNumbers, redactBooleans, shouldEncrypt && encryptionKey != nil, mkbytes(elems(encryptionKey), off(encryptionKey), len(encryptionKey)), redactedFieldsRegexp, emailRegex, redactNamespaces)
+//@   ensures result-kind {C03}: (isMap(stage) && isMap(result) && mapOf(result) > old(heapTop) && mapOf(result) <= heapTop && !isTable(mapOf(result))) || (isArr(stage) && result == stage) || (!isMap(stage) && !isArr(stage) && result == stage)
+//@   defines stage-relation {C01,C03}: RelS(c, redactFieldNames, inSearchStage, stage, result) := true
 
 //@ func redactCommand
 //@   safety C07
@@ -505,8 +528,11 @@ package main
 //@   local A := om(cmd)
 //@   loop 1 invariant key-path-frame: unchangedBelow("Arr:Str")
 //@   loop 1 each stage-relation {C01,C03}: RelS(c, shouldEagerRedact, inSearchStage, stage, newPipeline[_idx])
+//@   assert_after (*orderedmap.OrderedMap).Get#3 keys-so-far: ChangedOnlyZ(A, om(cmd))
 //@   assert_after (*orderedmap.OrderedMap).Get#5 keys-so-far: ChangedOnlyZ(A, om(cmd))
+//@   assert_after (*orderedmap.OrderedMap).Get#7 keys-so-far: ChangedOnlyZ(A, om(cmd))
 //@   assert_after (*orderedmap.OrderedMap).Get#9 keys-so-far: ChangedOnlyZ(A, om(cmd))
+//@   assert_after (*orderedmap.OrderedMap).Get#11 keys-so-far: ChangedOnlyZ(A, om(cmd))
 //@   ensures only-this-map: unchangedBelowExcept("Mem:OMap", cmd)
 //@   ensures only-zone-keys-change {C04,C03}: implies(cmd != nil, ChangedOnlyZ(A, om(cmd)))
 //@   ensures zone-query-map {C01}: implies(cmd != nil, ZoneMap(c, shouldEagerRedact, A, om(cmd), "query"))
@@ -521,12 +547,21 @@ package main
 //@   ensures zone-u-array {C01}: implies(cmd != nil, ZoneArr(c, shouldEagerRedact, A, om(cmd), "u"))
 //@   ensures zone-documents-array {C01}: implies(cmd != nil && omIdx(A, "insert") >= 0, ZoneArr(c, shouldEagerRedact, A, om(cmd), "documents"))
 //@   ensures zone-pipeline-array {C01,C03}: implies(cmd != nil && omIdx(A, "pipeline") >= 0 && isArr(omVal(A, omIdx(A, "pipeline"))), isArr(omVal(om(cmd), omIdx(A, "pipeline"))) && len(arrOf(omVal(om(cmd), omIdx(A, "pipeline")))) == len(arrOf(omVal(A, omIdx(A, "pipeline")))))
+//@   defines command-relation {C01}: RelC(c, shouldEagerRedact, cmd) := true
 
 //@ func redactNamespace
 //@   safety C07
+//@   props C12
 //@   assigns GoMaps, Mem:OMap
 //@   allocs Arr:Int, Arr:Str, Arr:Val
 //@   requires map: cmd != nil && !isTable(cmd)
+//@   local A := om(cmd)
+//@   loop 1 invariant frame: unchangedBelowExcept("Mem:OMap", cmd) && redactedString == old(redactedString)
+//@   loop 1 invariant only-namespace-keys-change {C12,C04}: ChangedOnlyN(A, om(cmd))
+//@   loop 1 each hashed {C12}: omIdx(A, field) < 0 || NsHashed(redactedString, value, omVal(om(cmd), omIdx(A, field)))
+//@   ensures only-this-map: unchangedBelowExcept("Mem:OMap", cmd)
+//@   ensures only-namespace-keys-change {C12,C04}: ChangedOnlyN(A, om(cmd))
+//@   defines namespace-relation {C12}: RelN(redactedString, cmd) := true
 
 //@ func redactFieldNamesFromPlanSummary
 //@   safety C07
